@@ -38,18 +38,18 @@ Proof. eexists. split; [vm_compute; reflexivity|]. vm_compute. repeat split. Qed
 (* (a == A) | (a == 1.0): merged Or inner-joins `value` and loses the type branch *)
 Definition p_join := POr (PCmp ["a"] CEq (KType A)) (PCmp ["a"] CEq (KNum 8)).
 Example or_join_refuted :
-  exists q, compile current p_join = Ok q /\ wf_fit f0 = true /\ sem q f0 = false /\ eval p_join f0 = true.
+  exists q, compile pre4 p_join = Ok q /\ wf_fit f0 = true /\ sem q f0 = false /\ eval p_join f0 = true.
 Proof. eexists. split; [vm_compute; reflexivity|]. vm_compute. repeat split. Qed.
 (* (a == 1.0) | (a.b == 2.0): same defect with a deeper path *)
 Definition p_join2 := POr (PCmp ["a"] CEq (KNum 8)) (PCmp ["a"; "b"] CEq (KNum 16)).
 Example or_join2_refuted :
-  exists q, compile current p_join2 = Ok q /\ sem q f1 = false /\ eval p_join2 f1 = true.
+  exists q, compile pre4 p_join2 = Ok q /\ sem q f1 = false /\ eval p_join2 f1 = true.
 Proof. eexists. split; [vm_compute; reflexivity|]. vm_compute. repeat split. Qed.
 
 (* ~(info["k"] == "v") *)
 Definition p_ninfo := PNot (PInfo "k" "v").
 Example not_info_refuted :
-  exists q, compile current p_ninfo = Ok q /\ wf_fit f2 = true /\ sem q f2 = false /\ eval p_ninfo f2 = true.
+  exists q, compile pre4 p_ninfo = Ok q /\ wf_fit f2 = true /\ sem q f2 = false /\ eval p_ninfo f2 = true.
 Proof. eexists. split; [vm_compute; reflexivity|]. vm_compute. repeat split. Qed.
 
 (* ~(unique_tag == "t") on a fit whose unique_tag is NULL: not (NULL = 't') is NULL *)
@@ -57,19 +57,19 @@ Definition f_null := mkFit "fn" (OInst "c10_classes.Root" [("a", OVal 8)]) [("na
                            [("max_log_likelihood", 8%Z)] [("is_complete", true)] [] false.
 Definition p_nattr := PNot (PAttr (AEqS "unique_tag" (Some "t"))).
 Example not_attr_null_refuted :
-  exists q, compile current p_nattr = Ok q /\ wf_fit f_null = true /\ sem q f_null = false /\ eval p_nattr f_null = true.
+  exists q, compile pre4 p_nattr = Ok q /\ wf_fit f_null = true /\ sem q f_null = false /\ eval p_nattr f_null = true.
 Proof. eexists. split; [vm_compute; reflexivity|]. vm_compute. repeat split. Qed.
 Example not_attr_guards :
-  safe current p_nattr = false /\ safe_with current true true true false p_nattr = true /\
+  safe pre4 p_nattr = false /\ safe_with pre4 true true true false p_nattr = true /\
   attrs_defined f_null = false /\ forallb attrs_defined db5 = true.
 Proof. vm_compute. repeat split. Qed.
 
 (* ~((a.b == 1) | (d == 1)): TypeError;  (d == 1.0) | (d == "x"): AssertionError *)
 Definition p_notj := PNot (POr (PCmp ["a"; "b"] CEq (KNum 8)) (PCmp ["d"] CEq (KNum 8))).
 Definition p_tab3 := POr (PCmp ["d"] CEq (KNum 8)) (PCmp ["d"] CEq (KStr "x")).
-Example not_junction_fails : wf_pred p_notj = true /\ compile current p_notj = Err ETypeError.
+Example not_junction_fails : wf_pred p_notj = true /\ compile pre4 p_notj = Err ETypeError.
 Proof. vm_compute. split; reflexivity. Qed.
-Example three_tables_fails : wf_pred p_tab3 = true /\ compile current p_tab3 = Err EAssertion.
+Example three_tables_fails : wf_pred p_tab3 = true /\ compile pre4 p_tab3 = Err EAssertion.
 Proof. vm_compute. split; reflexivity. Qed.
 
 (* slicing: [0:2], [1:3], [3:1] on five fits; chained negative start; child fits *)
@@ -133,18 +133,6 @@ Lemma legacy_exact_refuted :
 Proof.
   destruct inverted_merge_refuted as [q [Hq [W [Hs He]]]].
   exists p_inv, q, f0. repeat split; auto. rewrite Hs, He. discriminate.
-Qed.
-Lemma exact_refuted :
-  exists p q f, compile current p = Ok q /\ wf_pred p = true /\ wf_fit f = true /\ sem q f <> eval p f.
-Proof.
-  destruct or_join_refuted as [q [Hq [W [Hs He]]]].
-  exists p_join, q, f0. repeat split; auto. rewrite Hs, He. discriminate.
-Qed.
-Lemma total_refuted :
-  (exists p, wf_pred p = true /\ compile current p = Err ETypeError) /\
-  (exists p, wf_pred p = true /\ compile current p = Err EAssertion).
-Proof.
-  split; [exists p_notj; exact not_junction_fails | exists p_tab3; exact three_tables_fails].
 Qed.
 Lemma legacy_slice_refuted :
   exists L sl, run_slices legacy false L [sl] <> spec_slices false L [sl].
@@ -224,26 +212,53 @@ Proof.
   exists p_quote, f_qt. destruct quote_refuted as [H1 [H2 H3]]. repeat split; assumption.
 Qed.
 
-(* ---------- the four proposed repairs: the former refutations become exact in `next` ---------- *)
+(* ---------- the four proposed repairs: the former refutations become exact in `current` ---------- *)
 Definition p_and3 := PAnd (PCmp ["d"] CEq (KNum 8)) (PCmp ["d"] CEq (KStr "x")).
-Example next_or_join : exists q, compile next p_join = Ok q /\ sem q f0 = true /\ eval p_join f0 = true /\ sem q f2 = true /\ eval p_join f2 = true.
+Example now_or_join : exists q, compile current p_join = Ok q /\ sem q f0 = true /\ eval p_join f0 = true /\ sem q f2 = true /\ eval p_join f2 = true.
 Proof. eexists. split; [vm_compute; reflexivity|]. vm_compute. repeat split. Qed.
-Example next_or_join2 : exists q, compile next p_join2 = Ok q /\ sem q f1 = true /\ eval p_join2 f1 = true.
+Example now_or_join2 : exists q, compile current p_join2 = Ok q /\ sem q f1 = true /\ eval p_join2 f1 = true.
 Proof. eexists. split; [vm_compute; reflexivity|]. vm_compute. repeat split. Qed.
-Example next_three_tables_or : exists q, compile next p_tab3 = Ok q /\ sem q f0 = true /\ sem q f1 = true /\ sem q f2 = false.
+Example now_three_tables_or : exists q, compile current p_tab3 = Ok q /\ sem q f0 = true /\ sem q f1 = true /\ sem q f2 = false.
 Proof. eexists. split; [vm_compute; reflexivity|]. vm_compute. repeat split. Qed.
-Example next_not_info : exists q, compile next p_ninfo = Ok q /\ sem q f2 = true /\ sem q f0 = false /\ sem q f1 = true.
+Example now_not_info : exists q, compile current p_ninfo = Ok q /\ sem q f2 = true /\ sem q f0 = false /\ sem q f1 = true.
 Proof. eexists. split; [vm_compute; reflexivity|]. vm_compute. repeat split. Qed.
-Example next_not_attr_null : exists q, compile next p_nattr = Ok q /\ sem q f_null = true /\ eval p_nattr f_null = true.
+Example now_not_attr_null : exists q, compile current p_nattr = Ok q /\ sem q f_null = true /\ eval p_nattr f_null = true.
 Proof. eexists. split; [vm_compute; reflexivity|]. vm_compute. repeat split. Qed.
-Example next_not_junction : exists q, compile next p_notj = Ok q /\ sem q f0 = false /\ sem q f1 = true /\ sem q f2 = true.
+Example now_not_junction : exists q, compile current p_notj = Ok q /\ sem q f0 = false /\ sem q f1 = true /\ sem q f2 = true.
 Proof. eexists. split; [vm_compute; reflexivity|]. vm_compute. repeat split. Qed.
-Example next_three_tables_and : compile next p_and3 = Err EAssertion.
+Example now_three_tables_and : compile current p_and3 = Err EAssertion.
 Proof. vm_compute. reflexivity. Qed.
-Example next_guard_holds :
-  safe_with next false false true false p_join = true /\ safe_with next false false true false p_join2 = true /\
-  safe_with next false false true false p_tab3 = true /\ safe_with next false false true false p_ninfo = true /\
-  safe_with next false false true false p_nattr = true /\ safe_with next false false true false p_notj = true /\
-  safe_with next false false true false (PNot (PAnd p_join (POr p_ninfo (PNot p_notj)))) = true /\
-  guard_next (PNot (PAnd p_join (POr p_ninfo p_nattr))) db5.
-Proof. unfold guard_next. repeat split; vm_compute; reflexivity. Qed.
+Example now_guard_holds :
+  safe_with current false false true false p_join = true /\ safe_with current false false true false p_join2 = true /\
+  safe_with current false false true false p_tab3 = true /\ safe_with current false false true false p_ninfo = true /\
+  safe_with current false false true false p_nattr = true /\ safe_with current false false true false p_notj = true /\
+  safe_with current false false true false (PNot (PAnd p_join (POr p_ninfo (PNot p_notj)))) = true /\
+  guard_db (PNot (PAnd p_join (POr p_ninfo p_nattr))) db5.
+Proof. unfold guard_db. repeat split; vm_compute; reflexivity. Qed.
+
+(* ---------- refutations about the current code / its history, in the form stated in Props.v ---------- *)
+Lemma exact_refuted :
+  exists p q f, compile current p = Ok q /\ wf_pred p = true /\ wf_fit f = true /\ sem q f <> eval p f.
+Proof.
+  destruct like_refuted1 as [q [Hq [Hs He]]].
+  exists p_like1, q, f0. repeat split; auto. rewrite Hs, He. discriminate.
+Qed.
+(* the four repaired defects, as statements about `pre4` *)
+Lemma pre4_exact_refuted :
+  (exists q, compile pre4 p_join = Ok q /\ sem q f0 <> eval p_join f0) /\
+  (exists q, compile pre4 p_ninfo = Ok q /\ sem q f2 <> eval p_ninfo f2) /\
+  (exists q, compile pre4 p_nattr = Ok q /\ wf_fit f_null = true /\ sem q f_null <> eval p_nattr f_null) /\
+  compile pre4 p_notj = Err ETypeError /\ compile pre4 p_tab3 = Err EAssertion.
+Proof.
+  destruct or_join_refuted as [q1 [H1 [_ [S1 E1]]]].
+  destruct not_info_refuted as [q2 [H2 [_ [S2 E2]]]].
+  destruct not_attr_null_refuted as [q3 [H3 [W3 [S3 E3]]]].
+  split; [|split; [|split; [|split]]].
+  - exists q1. split; [exact H1 | rewrite S1, E1; discriminate].
+  - exists q2. split; [exact H2 | rewrite S2, E2; discriminate].
+  - exists q3. split; [exact H3 | split; [exact W3 | rewrite S3, E3; discriminate]].
+  - exact (proj2 not_junction_fails).
+  - exact (proj2 three_tables_fails).
+Qed.
+Lemma total_refuted : exists p, wf_pred p = true /\ compile current p = Err EAssertion.
+Proof. exists p_and3. split; [reflexivity | exact now_three_tables_and]. Qed.
